@@ -143,6 +143,16 @@ def run_shard(rec, tier, seed, shard, nshards):
                 order = [int(x) for x in rng.permutation(n_chunks)]
                 try:
                     holders = [ChunkedScoresHolder.load_h5(files[c]) for c in order]
+                    if rng.random() < 0.6:
+                        # a per-chunk report before combining: look every holder up (must not change what comes later)
+                        for h_ in holders:
+                            ids_ = [int(x) for x in h_.plate_ids[: int(h_.current_index)].tolist()]
+                            if ids_:
+                                pid_ = ids_[int(rng.integers(len(ids_)))]
+                                rec.check(float(h_.get_score(pid_)) == table[pid_], "C06/holder/get_score", "get_score of a loaded chunk holder returns another score than prescribed", w)
+                                best_ = int(h_.plate_id_with_minimum_score(ids_))
+                                rec.check(not [p for p in ids_ if table[p] < table[best_]], "C06/holder/chunk-minimum", "minimum of a chunk holder is not minimal", w)
+                        rec.count("holders_queried_before_combine")
                     comb = ChunkedScoresHolder.concat(holders)
                 except Exception as e:
                     rec.violation("C06/combine/raises", "load/concat in order %r raised %r" % (order, e), w)
